@@ -139,6 +139,19 @@ pub struct RunOpts {
     pub log_config: bool,
     /// record the objective-side event log of every evaluation step
     pub par_log: bool,
+    /// register the real evaluator under identifier A and a poisoned one under the default identifier
+    pub eval_id_a: bool,
+}
+
+/// An evaluator nobody should reach: it attaches a wrong objective value without calling the objective function.
+pub struct Poison<P>(pub std::marker::PhantomData<fn() -> P>);
+impl<P: SingleObjectiveProblem> mahf::problems::Evaluate for Poison<P> {
+    type Problem = P;
+    fn evaluate(&mut self, _: &P, _: &mut State<P>, individuals: &mut [Individual<P>]) {
+        for i in individuals {
+            i.set_objective(12345.678.try_into().unwrap());
+        }
+    }
 }
 
 pub static RNG_DRAWS: std::sync::atomic::AtomicU64 = std::sync::atomic::AtomicU64::new(0);
@@ -275,6 +288,7 @@ where
     });
     let counting = opts.counting_rng;
     let log_config = opts.log_config;
+    let eval_id_a = opts.eval_id_a;
     let body = || {
         config.optimize_with(problem, |state| {
             if counting {
@@ -282,7 +296,11 @@ where
             } else {
                 state.insert(Random::new(seed));
             }
-            if parallel {
+            if eval_id_a {
+                // the configuration asks for identifier A everywhere; whoever uses the default evaluator gets poison
+                state.insert_evaluator_as::<mahf::identifier::A>(Sequential::<P>::new());
+                state.insert_evaluator(Poison::<P>(std::marker::PhantomData));
+            } else if parallel {
                 state.insert_evaluator(mahf::problems::Parallel::<P>::new());
             } else {
                 state.insert_evaluator(Sequential::<P>::new());
@@ -577,6 +595,24 @@ where
             },
             cond(),
         ),
+        // the firefly template instantiated for identifier A (as real_fa does for Global): every evaluation has to go
+        // through the evaluator registered under A; the harness registers a *poisoned* evaluator under Global
+        "real_fa@A" => {
+            use mahf::{components::{boundary, initialization, mapping, swarm}, identifier::A, lens::ValueOf};
+            Ok(Configuration::builder()
+                .do_(initialization::RandomSpread::new(u(p, "pop_size")))
+                .evaluate_with::<A>()
+                .update_best_individual()
+                .do_(fa::fa::<P, A>(
+                    fa::Parameters {
+                        firefly_update: swarm::fa::FireflyPositionsUpdate::<A>::new_with_id(f(p, "alpha"), f(p, "beta"), f(p, "gamma")),
+                        constraints: boundary::Saturation::new(),
+                        alpha_update: Box::from(mapping::sa::GeometricCooling::new(f(p, "delta"), ValueOf::<swarm::fa::RandomizationParameter>::new())),
+                    },
+                    cond(),
+                ))
+                .build())
+        }
         "real_fa" => fa::real_fa(fa::RealProblemParameters { pop_size: u(p, "pop_size"), alpha: f(p, "alpha"), beta: f(p, "beta"), gamma: f(p, "gamma"), delta: f(p, "delta") }, cond()),
         "real_bh" => bh::real_bh(bh::RealProblemParameters { num_particles: u(p, "num_particles") }, cond()),
         "real_cro" => cro::real_cro(
@@ -710,7 +746,7 @@ pub fn run_spec(out: &mut Out, run: u64, spec: &Value) {
                 }
                 Ok(Ok(config)) => {
                     header["ctor"] = json!("ok");
-                    let o = observe(&config, &problem, seed, extra, parallel);
+                    let o = observe_with(&config, &problem, seed, extra, &RunOpts { parallel, eval_id_a: name.ends_with("@A"), ..Default::default() });
                     header["tree"] = o.tree.clone();
                     let values = problem.stats().values.lock().unwrap().clone();
                     emit_run(out, run, &header, &o, &values);
